@@ -104,6 +104,26 @@ RULES = [
     {"pattern": [{"mov": ["&genreg.64"]}, {"add": ["&genreg.32"]}, {"$not": ["ret"], "times": {"min": 0, "max": 2}}]},
 ]
 
+N_CH_RULES = len(RULES)   # the CrossHair rule steps use the rules above; the histories below use these and more
+
+RULES += [
+    # operand-level $not nested in an operator, then instruction-level $not in another rule
+    {"pattern": [{"mov": [{"$or": [{"$not": ["rcx"]}, "rdx"]}, "rbx"]}]},
+    {"pattern": [{"$not": ["call"]}, "call"]},
+    {"pattern": ["add", {"$not": ["xor"], "times": 2}]},
+    # two register captures, registered in different orders by different rules
+    {"pattern": [{"mov": ["&genreg-a.64", "&genreg-b.64"]}, {"add": ["&genreg-a.64", "&genreg-b.64"]}]},
+    {"pattern": [{"mov": ["&genreg-b.64", "&genreg-a.64"]}, {"add": ["&genreg-b.64", "&genreg-a.64"]}]},
+    # an operation that FAILS after the listing was consumed (regex.error at match time)
+    {"pattern": ["mov("]},
+    # extra macro files (the first file is shared between two rules; a library file whose content differs at the same path)
+    {"_extra": [["regs.yaml", [{"name": "@x", "pattern": "mov"}]], ["wild.yaml", [{"name": "@y", "pattern": "add"}]]], "pattern": ["@x", "@y"]},
+    {"_extra": [["regs.yaml", [{"name": "@x", "pattern": "mov"}]]], "macros": [{"name": "@y", "pattern": "xor"}], "pattern": ["call", "@y"]},
+    {"_extra": [["lib.yaml", [{"name": "@imm", "pattern": "mov"}]]], "pattern": ["@imm", "add"]},
+    {"_extra": [["lib.yaml", [{"name": "@imm", "pattern": "xor"}]]], "pattern": ["@imm", "xor"]},
+    {"_extra": [["regs.yaml", [{"name": "@x", "pattern": "mov"}]]], "pattern": ["@x", "@y"]},   # @y undefined: must fail every time
+]
+
 PRE_RULES = PRE + '''
 import jasm.jasm_regex.yaml2regex as _y
 from jasm.jasm_regex.yaml2regex import Yaml2Regex
@@ -139,7 +159,7 @@ def _operation(k):
     r = JASMConfig().get_info("valid_addr_range")
     flags = list(GNUObjdumpDisassembler(JASMConfig().get_info("assembly_style")).flags)
     return (rgx, obs, None if r is None else (r.min.hex, r.max.hex), flags)
-''' % (RULES,)
+''' % (RULES[:N_CH_RULES],)
 
 
 def rule_step(k):
@@ -209,7 +229,7 @@ def harnesses(t):
     f.load_config(cfg)
     return got == _state(f)
 ''', timeout=T, prelude=PRE, key="load_config_step", note="arbitrary singleton pre-state x every subset of config keys"))
-    for k in range(len(RULES)):
+    for k in range(N_CH_RULES):
         hs.append(ch.H(f"c14/rule_step/{k}", rule_step(k), timeout=T, prelude=PRE_RULES, key="rule_step", note=f"rule {k}: regex, observers, range, objdump flags from an arbitrary pre-state == fresh"))
     return hs
 
@@ -226,9 +246,19 @@ out = []
 with tempfile.TemporaryDirectory(prefix="jasmverif_") as d:
     a = os.path.join(d, "in.s"); open(a, "w").write(listing)
     for k in seq:
-        p = os.path.join(d, "r%d.yaml" % k); open(p, "w").write(yaml.safe_dump(rules[k], sort_keys=False))
+        rule = dict(rules[k])
+        extra = rule.pop("_extra", None)
+        p = os.path.join(d, "r%d.yaml" % k); open(p, "w").write(yaml.safe_dump(rule, sort_keys=False))
+        mpaths = None
+        if extra:
+            mpaths = []
+            for name, macros in extra:
+                mp = os.path.join(d, name)          # same name => same path (a library file edited between operations)
+                open(mp, "w").write(yaml.safe_dump({"macros": macros}, sort_keys=False))
+                os.utime(mp, (1000000000 + 7 * k, 1000000000 + 7 * k))
+                mpaths.append(mp)
         try:
-            m = MasterOfPuppets(MatchConfig(pattern_pathstr=p, input_file=a, return_mode=MatchingReturnMode.matched_addrs_list, matching_mode=MatchingSearchMode.all_finds))
+            m = MasterOfPuppets(MatchConfig(pattern_pathstr=p, input_file=a, return_mode=MatchingReturnMode.matched_addrs_list, matching_mode=MatchingSearchMode.all_finds, macros=mpaths))
             out.append([m.regex_rule, m.perform_matching()])
         except Exception as e:
             out.append(["EXC", type(e).__name__ + ": " + str(e)])
@@ -288,7 +318,7 @@ def inventory_and_pairs(run):
 
     jasmapi.run_pipeline(RULES[0], LISTING)  # make sure everything is imported
     before = snapshot()
-    for r in RULES:
+    for r in RULES[:N_CH_RULES]:
         try:
             jasmapi.run_pipeline(copy.deepcopy(r), LISTING)
         except Exception:
@@ -306,7 +336,9 @@ def inventory_and_pairs(run):
     bad = 0
     import concurrent.futures as cf
 
-    seqs = [[i, j] for i in range(n) for j in range(n)] + [[i, j, i] for i in range(n) for j in range(n) if i != j][: (0 if tier() == "quick" else 56)]
+    seqs = [[i, j] for i in range(n) for j in range(n)]
+    triples = [[i, j, i] for i in range(n) for j in range(n) if i != j]
+    seqs += triples[:: (7 if tier() == "quick" else 1)]
     with cf.ThreadPoolExecutor(16) as ex:
         results = list(ex.map(run_ops, seqs))
     for seq, res in zip(seqs, results):
